@@ -257,6 +257,7 @@ def save_replay(pid, res, tier, seed):
     desc = {"property": pid, "unit": res["unit"], "tier": tier, "verif_seed": seed,
             "rapid_seed": res["seed"], "shard": res["shard"], "failed_tests": sorted(set(tests)),
             "detail": res["detail"], "rapid_failfile": ff,
+            "output_head": res["out"][:20000] if len(res["out"]) > 300000 else "",
             "output_tail": res["out"][-300000:]}
     # case files written by non-rapid units (schedules, crash points, fuzz inputs)
     cases = sorted(glob.glob(os.path.join(res["cwd"], "verif-case-*.json")))
